@@ -96,6 +96,8 @@ class Pipe:
         pol = self.policy
         if pol == "full":
             return n
+        if pol.startswith("chunk:"):
+            return min(n, int(pol[6:]))      # a transport that delivers at most k bytes per read
         if pol == "one":
             return 1
         lo = 1
